@@ -146,6 +146,8 @@ class Ctx:
         body = json.dumps(replay_obj, sort_keys=True)
         h = hashlib.sha1(body.encode()).hexdigest()[:12]
         path = os.path.join(WORK, "replay", "%s-%s.json" % (self.pid, h))
+        if path in self.violations:
+            return True
         with open(path, "w") as f:
             json.dump({"property": self.pid, "signature": signature, "what": what, "replay": replay_obj}, f, indent=1)
         if len(self.violations) < 50:
